@@ -144,20 +144,16 @@ Lemma set_map_pend ps m q am it pp m' : set_map (pend ps m q am it pp) m' = pend
 Proof. reflexivity. Qed.
 
 Lemma data_from_steady m ps pp it v :
-  data_plain v = true -> (negb it || value_falsy v) = true ->
+  data_plain v = true ->
   wstep (steady m ps pp it) (WData v)
   = (steady m ps pp true, flat_map sflat (txt_of (fst (encode_data m v))), None).
 Proof.
-  intros Hp Hit. cbn [wstep]. unfold set_data, steady.
+  intros Hp. cbn [wstep]. unfold set_data, steady.
   change (w_map (idle ps true m [] it pp)) with m.
   pose proof (encode_data_plain m v Hp) as Em.
-  pose proof (value_falsy_enc m v) as Ef.
   destruct (encode_data m v) as [enc m']. cbn [snd fst] in *. subst m'.
   rewrite set_map_idle, flush_idle.
-  destruct enc as [[|c t]|]; try reflexivity.
-  destruct it.
-  - cbn in Hit. specialize (Ef Hit). discriminate.
-  - reflexivity.
+  destruct enc as [[|c t]|]; reflexivity.
 Qed.
 
 Lemma data_from_pend ps m q am it pp v :
@@ -175,8 +171,7 @@ Proof.
   rewrite set_map_pend.
   replace (match enc with None => true | Some _ => false end) with (enc_is_none enc) by reflexivity.
   rewrite flush_pend. cbn zeta.
-  destruct enc as [[|c t]|]; cbn [txt_of flat_map sflat app]; rewrite ?app_nil_r; try reflexivity.
-  cbn [idle w_in_tail]. rewrite <- app_assoc. reflexivity.
+  destruct enc as [[|c t]|]; cbn [txt_of flat_map sflat app]; rewrite <- ?app_assoc; reflexivity.
 Qed.
 
 Lemma end_from_idle ps m it pfx pp q :
@@ -222,7 +217,7 @@ Fixpoint it_after (it : bool) (ks : list item) : bool :=
 Definition item_runs (i : item) : Prop :=
   forall m ps pp it,
     item_ok i = true ->
-    (match i with IData v => data_plain v && (negb it || value_falsy v) | _ => true end) = true ->
+    (match i with IData v => data_plain v | _ => true end) = true ->
     wrun (steady m ps pp it) (flatten i)
     = (steady m ps pp (is_data i), flat_map sflat (wref m i), None).
 
@@ -240,8 +235,8 @@ Proof.
                    = (steady m ps pp (is_data k), flat_map sflat (wref m k), None)
                    /\ kids_ok_with item_ok (is_data k) ks = true).
     { destruct k as [v|q ats ks'].
-      - cbn in Hok. apply andb_true_iff in Hok as [Hok Hr]. apply andb_true_iff in Hok as [H1 H2].
-        split; [|exact Hr]. apply Hk; [reflexivity|]. rewrite H2, H1. reflexivity.
+      - cbn in Hok. apply andb_true_iff in Hok as [H2 Hr].
+        split; [|exact Hr]. apply Hk; [reflexivity|exact H2].
       - change (kids_ok_with item_ok it (INode q ats ks' :: ks))
           with (item_ok (INode q ats ks') && kids_ok_with item_ok false ks) in Hok.
         apply andb_true_iff in Hok as [H1 H2]. split; [|exact H2]. apply Hk; [exact H1|reflexivity]. }
@@ -334,8 +329,8 @@ Qed.
 Theorem item_runs_all i : item_runs i.
 Proof.
   induction i as [v|q ats ks IH] using item_ind2; intros m ps pp it Hok Hd.
-  - apply andb_true_iff in Hd as [H1 H2]. cbn [flatten]. cbn [wrun].
-    rewrite (data_from_steady m ps pp it v H1 H2). cbn [wref]. rewrite app_nil_r. reflexivity.
+  - cbn [flatten]. cbn [wrun].
+    rewrite (data_from_steady m ps pp it v Hd). cbn [wref]. rewrite app_nil_r. reflexivity.
   - destruct (elem_from_idle q ats ks IH Hok ps true m [] it pp) as [m4 H].
     cbn [pm_of end_state] in H. unfold steady. rewrite H. cbn [wref flat_map is_data]. rewrite app_nil_r. reflexivity.
 Qed.
